@@ -128,9 +128,14 @@ pub fn check(c: &Case) -> CheckResult {
         // ... and its own stroker: for undashed strokes of polylines the region model of C04 says, independently,
         // which pixels lie outside the stroke by more than the margin
         if let Op::Stroke(p, _, st, _) = &c.draw {
-            if st.dash.is_empty() && !p.has_curves() && st.width.0 > 0.0 && xf_det(&c.xf) != 0.0 {
-                let polys = crate::stroke_model::polylines(p, 0.01);
-                if let Some(v) = crate::stroke_model::verdicts(&polys, st.width.0 as f64, st.cap, st.join, st.miter.0 as f64, &c.xf, w, h, 0.5) {
+            // (curves: round joins only, margin 1 px: with round joins the stroke of any flattening is exactly the set of
+            // points within half a width of the polyline, which lies within the flattening tolerance of the curve; bevels
+            // and miters at a tight bend depend on where the flattening puts its vertices)
+            let curved = p.has_curves();
+            if st.dash.is_empty() && (!curved || st.join == 1) && st.width.0 > 0.0 && xf_det(&c.xf) != 0.0 {
+                let unit = (xf_det(&c.xf).abs()).sqrt().max(1e-6);
+                let polys = crate::stroke_model::polylines(p, 0.01 / unit);
+                if let Some(v) = crate::stroke_model::verdicts(&polys, st.width.0 as f64, st.cap, st.join, st.miter.0 as f64, &c.xf, w, h, if curved { 1.0 } else { 0.5 }) {
                     let mut extra = 0;
                     for i in 0..n {
                         if v[i] == 0 {
@@ -246,6 +251,7 @@ pub fn check(c: &Case) -> CheckResult {
     o.class_if(!c.clips.is_empty(), "clipped");
     o.class_if(c.w > 256 || c.h > 256, "surface-beyond-256");
     {
+        o.class_if(matches!(&c.draw, Op::Stroke(p, ..) if p.has_curves()) && xf_det(&c.xf) < 0.0 && xf_det(&c.xf).abs() > 900.0, "curved-stroke-under-a-mirroring-magnifying-transform");
         let far_in = |p: &PathSpec| p.points().iter().any(|q| q.0.abs() > 2000.0 || q.1.abs() > 2000.0);
         let f = matches!(&c.draw, Op::Fill(p, ..) if far_in(p)) || c.clips.iter().any(|cl| matches!(cl, Op::PushClipPath(p) if far_in(p)));
         o.class_if(f, "polygon-with-a-vertex-beyond-2000px");
@@ -315,6 +321,32 @@ pub fn strategy(ctx: &Ctx) -> BoxedStrategy<Case> {
                     if let Op::PushClipPath(p) = cl {
                         far(p, 2 + j);
                     }
+                }
+            }
+            // mirrored and magnified: one undashed stroke in three is described in user units 32 or 100 times smaller
+            // under a transform that also mirrors x (negative determinant): the device geometry is the same
+            let mut xf = xf;
+            if let Op::Stroke(p, _, st, _) = &mut draw {
+                if xf == IDENT && st.dash.is_empty() && clips.iter().all(|cl| matches!(cl, Op::PushClipRect(..))) && (k + p.ops.len()) % 3 == 0 {
+                    let z = if k % 2 == 0 { 32.0f32 } else { 100.0 };
+                    let tx = (w / 2) as f32;
+                    let m = |x: f32, y: f32| ((tx - x) / z, y / z);
+                    for op in p.ops.iter_mut() {
+                        *op = match *op {
+                            POp::M(x, y) => { let q = m(x, y); POp::M(q.0, q.1) }
+                            POp::L(x, y) => { let q = m(x, y); POp::L(q.0, q.1) }
+                            POp::Q(a, b, x, y) => { let (q, r) = (m(a, b), m(x, y)); POp::Q(q.0, q.1, r.0, r.1) }
+                            POp::C(a, b, cc, d, x, y) => { let (q, r, t) = (m(a, b), m(cc, d), m(x, y)); POp::C(q.0, q.1, r.0, r.1, t.0, t.1) }
+                            POp::Z => POp::Z,
+                        };
+                    }
+                    st.width = Fl(st.width.0 / z);
+                    if p.has_curves() {
+                        // (round joins: the only ones for which the stroke of a curve is known independently of
+                        // the flattening)
+                        st.join = 1;
+                    }
+                    xf = [-z, 0.0, 0.0, z, tx, 0.0];
                 }
             }
             // one layer case in three pops some or all of its clips before the layer
